@@ -39,3 +39,10 @@ func (c verifCache) Update(evt Event) ([]Event, error) {
 func (c verifCache) Refilter(list []metav1.Object, f filter.Filter) ([]Event, error) {
 	return c.cache.refilter(list, f)
 }
+
+// VerifNewFilterSubscription exposes the filter subscription over an arbitrary
+// parent subscription (the harness then owns readiness, the event channel and
+// the cache listing of the parent, i.e. the schedule).
+func VerifNewFilterSubscription(log logutil.Log, parent Subscription, f filter.Filter, deferReady bool) FilterSubscription {
+	return newFilterSubscription(log, parent, f, deferReady)
+}
